@@ -231,15 +231,30 @@ func (l *scriptListener) Accept() (net.Conn, error) {
 func (l *scriptListener) Close() error   { l.once.Do(func() { close(l.closed) }); return nil }
 func (l *scriptListener) Addr() net.Addr { return &net.TCPAddr{IP: net.IPv4(127, 0, 0, 1), Port: 80} }
 
-const watchdog = 30 * time.Second
+const watchdog = 30 * time.Second // harness choreography: expiry = inconclusive
 
-func wait(ch <-chan struct{}) bool {
+// termWait: how long after the server closed a connection its terminal hook call is awaited
+// before the connection is judged as it stands (the hook call directly follows Close in the code).
+const termWait = 10 * time.Second
+
+func wait(ch <-chan struct{}) bool { return waitFor(ch, watchdog) }
+
+func waitFor(ch <-chan struct{}, d time.Duration) bool {
 	select {
 	case <-ch:
 		return true
-	case <-time.After(watchdog):
+	case <-time.After(d):
 		return false
 	}
+}
+
+var missingTerminal atomic.Int32
+
+func termGrace() time.Duration {
+	if missingTerminal.Load() >= 3 {
+		return 50 * time.Millisecond
+	}
+	return termWait
 }
 
 type finding struct{ key, what string }
@@ -322,9 +337,10 @@ func judge(mode string, rmu bool, rec *connRec, seq []stateEv, r *mon.Run) []fin
 		case fasthttp.StateIdle:
 			if state != "active" {
 				out = append(out, finding{"transition-" + state + "-idle", "StateIdle not preceded by StateActive"})
+			} else {
+				idles++ // one more request finished
 			}
 			state = "idle"
-			idles++
 		case fasthttp.StateClosed, fasthttp.StateHijacked:
 			terminal = to
 		default:
@@ -495,8 +511,10 @@ func runCase(r *mon.Run, i int) {
 				}
 			}
 			close(gate)
-			if ok && !wait(recs[0].term) {
-				incon = "gated connection did not finish"
+			if ok && !waitFor(recs[0].term, termGrace()) {
+				if closed, _ := recs[0].conn.Closed(); !closed {
+					incon = "gated connection did not finish"
+				}
 			}
 			for _, rec := range recs[2:] {
 				if incon == "" {
@@ -512,9 +530,13 @@ func runCase(r *mon.Run, i int) {
 		}
 		if incon == "" {
 			for _, rec := range recs {
-				if !wait(rec.term) {
+				// Once a few connections were seen closed by the server without any terminal
+				// hook call after the full watchdog, later cases wait only briefly (the
+				// violation is established; this only keeps a broken tree from taking hours).
+				if !waitFor(rec.term, termGrace()) {
 					// no terminal state: let the language monitor say so, but only if the server is done with the conn
 					if closed, _ := rec.conn.Closed(); closed {
+						missingTerminal.Add(1)
 						continue
 					}
 					incon = "connection neither terminal nor closed"
